@@ -42,49 +42,41 @@ def _load():
 
 
 def _work(args):
-    key, tier = args
+    """one pool task: the base verification of a function (canary is None) or one in-memory mutation canary"""
+    key, tier, canary = args
     try:
         from pyvc.verify import verify_function
 
         REG = _load()
         c = REG.contracts[key]
-        t0 = time.time()
-        rep = verify_function(REG, c, tier)
-        out = {
-            'key': list(key),
-            'paths': rep.paths,
-            'out_of_reach': rep.out_of_reach,
-            'outcomes': rep.outcomes,
-            'clauses': list(rep.clauses().values()),
-            'vcs': len(rep.obligations),
-            'notes': rep.notes + list(c.notes),
-            'wall': rep.wall,
-            'canaries': [],
-            'drops': drop_report(REG, c),
-        }
-        # engine-soundness canaries: in-memory mutations of the extracted source segment
-        base_ok = rep.out_of_reach is None and all(cl['status'] == 'proved' for cl in out['clauses'])
-        cans = c.canaries if tier == 'thorough' else c.canaries[:1]
-        if os.environ.get('PYVC_ALL_CANARIES') == '1':
-            cans = c.canaries
-        if base_ok:
-            seg = REG.segment(*key)
-            for old, new in cans:
-                if seg.count(old) < 1:
-                    out['canaries'].append({'edit': [old, new], 'result': 'not-applicable (text not present in the current tree)'})
-                    continue
-                REG.source_override[key] = seg.replace(old, new, 1)
-                try:
-                    r2 = verify_function(REG, c, 'quick')
-                finally:
-                    del REG.source_override[key]
-                killed = [cl['clause'] for cl in r2.clauses().values() if cl['status'] == 'refuted']
-                res = 'killed' if killed else ('out-of-reach' if r2.out_of_reach else 'SURVIVED')
-                out['canaries'].append({'edit': [old, new], 'result': res, 'by': killed[:4], 'note': r2.out_of_reach})
-        out['wall_total'] = time.time() - t0
-        return out
+        if canary is None:
+            rep = verify_function(REG, c, tier)
+            return {
+                'key': list(key),
+                'paths': rep.paths,
+                'out_of_reach': rep.out_of_reach,
+                'outcomes': rep.outcomes,
+                'clauses': list(rep.clauses().values()),
+                'vcs': len(rep.obligations),
+                'notes': rep.notes + list(c.notes),
+                'wall': rep.wall,
+                'drops': drop_report(REG, c),
+            }
+        # engine-soundness canary: an in-memory mutation of the extracted source segment must be refuted
+        old, new = c.canaries[canary]
+        seg = REG.segment(*key)
+        if seg.count(old) < 1:
+            return {'key': list(key), 'canary': canary, 'edit': [old, new], 'result': 'not-applicable (text not present in the current tree)'}
+        REG.source_override[key] = seg.replace(old, new, 1)
+        try:
+            r2 = verify_function(REG, c, 'quick')
+        finally:
+            del REG.source_override[key]
+        killed = [cl['clause'] for cl in r2.clauses().values() if cl['status'] == 'refuted']
+        res = 'killed' if killed else ('out-of-reach' if r2.out_of_reach else 'SURVIVED')
+        return {'key': list(key), 'canary': canary, 'edit': [old, new], 'result': res, 'by': killed[:4], 'note': r2.out_of_reach}
     except Exception:
-        return {'key': list(key), 'crash': traceback.format_exc()}
+        return {'key': list(key), 'canary': canary, 'crash': traceback.format_exc()}
 
 
 def drop_report(REG, c):
@@ -154,8 +146,34 @@ def main(argv=None):
     keys.sort()
     results = []
     if keys:
-        with mp.get_context('fork').Pool(min(a.jobs, len(keys))) as pool:
-            results = pool.map(_work, [(k, tier) for k in keys], chunksize=1)
+        tasks = []
+        for k in keys:
+            tasks.append((k, tier, None))
+            ncan = len(REG.contracts[k].canaries)
+            if tier != 'thorough' and os.environ.get('PYVC_ALL_CANARIES') != '1':
+                ncan = min(ncan, 1)
+            for j in range(ncan):
+                tasks.append((k, tier, j))
+        # longest first: functions with many paths dominate the wall time
+        with mp.get_context('fork').Pool(min(a.jobs, len(tasks))) as pool:
+            raw = pool.map(_work, tasks, chunksize=1)
+        by_key = {}
+        for r in raw:
+            if r.get('canary') is None:
+                r['canaries'] = []
+                by_key[tuple(r['key'])] = r
+        for r in raw:
+            if r.get('canary') is not None:
+                base = by_key.get(tuple(r['key']))
+                if base is None or 'crash' in base:
+                    continue
+                if 'crash' in r:
+                    base['crash'] = r['crash']
+                    continue
+                base_ok = base['out_of_reach'] is None and all(cl['status'] == 'proved' for cl in base['clauses'])
+                if base_ok:
+                    base['canaries'].append({k_: v for k_, v in r.items() if k_ not in ('key', 'canary')})
+        results = [by_key[k] for k in keys if k in by_key]
     # ------------------------------------------------------------------ aggregate deductive part
     known = load_known()
     violations, known_lines, undecided, crashes, unsound = [], [], [], [], []
